@@ -15,6 +15,8 @@ import PoetryVerif.Proofs.ParserTotalGM
 import PoetryVerif.Proofs.ParserTotalVC
 import PoetryVerif.Proofs.ParserTotalVC2
 import PoetryVerif.Proofs.ParserTotalReq
+import PoetryVerif.Proofs.ParserTotalVC3
+import PoetryVerif.Proofs.ParserTotalSimp
 
 /-! # Part I — versions, string constraints, markers -/
 /-!
@@ -825,5 +827,374 @@ example : createFromPep508 "foo @" = .error .value := rfl
 example : createFromPep508 "foo @ https://example.com/foo.whl" = .error .value := rfl
 example : createFromPep508 "foo @ file:///x" = .error .unmodelled := rfl
 example : createFromPep508 "foo >=abc" = .error .value := rfl
+
+end Poetry.C19
+
+/-! # Part VI — version constraints: the local-label case closed; both full statements of Part II proved -/
+/-!
+C19, Part VI — version constraints: `parse_constraint` / `parse_marker_version_constraint` raise `ValueError`
+only, for EVERY string (the local-label case of Part IV closed).  Property theorems only (helper lemmas in
+Proofs/ParserTotalVC3.lean).  Vocabulary: `Good l` — every member of `l` is well-formed (ends well-formed,
+`min < max`) and tidy (an absent bound is not "included"); `GoodVC c := Good c.flatten`; `SortedLt l` — sorted
+for Python's `<` as `list.sort()` leaves it (no later element smaller than an earlier one); `MinOK acc l` — no
+bare version of `l` is strictly below the lower bound of a member of `acc`.
+-/
+set_option linter.unusedSimpArgs false
+set_option linter.unusedVariables false
+
+namespace Poetry.C19
+open Poetry Version VParser ParserTotal
+
+/-! ## `VersionUnion.of` never recurses -/
+
+/-- a version that allows a local build of itself without being equal to it is strictly below it
+(`1.0 < 1.0+x`): the fact that makes the one non-mergeable pair contradict the sort order -/
+theorem vc_public_version_below_local_build (v m : Version) (hm : m.wf = true) (h : v.allows m = true)
+    (hl : m.isLocal = true) (hne : Version.eqv v m = false) : vk v < vk m :=
+  lt_of_allows_local hm h hl hne
+
+/-- **the merge loop of `VersionUnion.of` never raises `RecursionError` on a sorted list** of well-formed tidy
+members — bare versions and local labels included.  The only pair the loop wants to merge although `a.union(b)`
+is not a single member is a range starting at a local build `V+x` followed by the bare version `V`; `list.sort()`
+puts `V` first. -/
+theorem vc_merge_loop_total_sorted (l acc : List RC) (hg : Good (l ++ acc)) (hs : SortedLt l) (hi : MinOK acc l) :
+    ∃ res, mergeLoop l acc = .ok res :=
+  mergeLoop_total_sorted l acc hg hs hi
+
+/-- **`VersionUnion.of(*members)` is total** on well-formed tidy members (no sortedness, no local-label
+hypothesis: it sorts first) and returns well-formed tidy members -/
+theorem vc_union_of_flat_total (l : List RC) (hg : Good l) : ∃ res, unionOfFlat l = .ok res ∧ Good res.flatten :=
+  unionOfFlat_total_good l hg
+
+/-! ## the algebra on well-formed tidy operands -/
+
+/-- **`a.intersect(b)` is total** for any two well-formed tidy constraints — unions and local labels included:
+the asserts of `VersionRange.intersect` do not fire, the merge walk of `VersionUnion.intersect` ends within the
+model's fuel, `VersionUnion.of` of the collected parts does not recurse; the result is again well-formed and tidy. -/
+theorem vc_intersect_total (a b : VC) (ha : GoodVC a) (hb : GoodVC b) : ∃ c, VC.intersect a b = .ok c ∧ GoodVC c :=
+  vcIntersect_good a b ha hb
+
+/-- **`VersionUnion.of(*constraints)` is total** on well-formed tidy constraints -/
+theorem vc_union_of_total (gs : List VC) (h : ∀ g ∈ gs, GoodVC g) : ∃ c, VC.unionOf gs = .ok c ∧ GoodVC c :=
+  unionOf_good gs h
+
+/-- every clause `parse_single_constraint` returns is well-formed and tidy -/
+theorem vc_clause_good (p : List Char) (m : Bool) (c : VC) (h : parseSingle p m = .ok c) : GoodVC c :=
+  parseSingle_good p m c h
+
+/-- **the hypothesis of Part II holds** for the class of well-formed tidy constraints, which contains every clause -/
+theorem vc_algebra_total : AlgebraTotal GoodVC := algebraTotal_good
+
+/-! ## A. the documented error only — every string -/
+
+/-- **`_parse_constraint` returns a well-formed tidy constraint or raises `ValueError`**: every string, both
+modes, any number of `,` and `||`, `!=`, wildcards, `~`, `^`, `~=`, local labels. -/
+theorem vc_parse_total (s : String) (m : Bool) :
+    (∃ c, parseConstraintAux s m = .ok c ∧ GoodVC c) ∨ parseConstraintAux s m = .error .value :=
+  parseConstraintAux_total s m
+
+/-- **the full statement of Part II** (`vc_parse_err_documented_full_statement`): no `IndexError`,
+`AssertionError`, `AttributeError`, `RecursionError`, `KeyError` (nor the model's `fuel` / `unmodelled`) escapes
+from the constraint parser, for any string. -/
+theorem vc_parse_err_documented : vc_parse_err_documented_full_statement := by
+  intro s m e he
+  rcases parseConstraintAux_total s m with ⟨c, hc, _⟩ | hv
+  · rw [hc] at he; cases he
+  · rw [hv] at he; cases he; rfl
+
+/-- in particular the local-label case left open in Part IV -/
+theorem vc_parse_err_documented_local_case : vc_parse_err_documented_local_case_statement :=
+  fun s m e _ he => vc_parse_err_documented s m e he
+
+/-- and the hypothesis `VCErrDocumented` of Parts I and III (the marker-mode instance) -/
+theorem vc_err_documented : VCErrDocumented :=
+  fun s e he => vc_parse_err_documented s true e he
+
+/-- `parse_constraint` and `parse_marker_version_constraint`, spelled out -/
+theorem vc_parse_constraint_err_documented (s : String) (e : PyErr) :
+    (parseConstraint s = .error e → e = .value) ∧ (parseMarkerVersionConstraint s = .error e → e = .value) :=
+  ⟨vc_parse_err_documented s false e, vc_parse_err_documented s true e⟩
+
+/-! ### concrete local-label strings (none satisfies `NoLocalBound` of Part IV) -/
+
+example : ¬ NoLocalBound ">=1.0+x || 1.0" false ∧ ¬ NoLocalBound "1.0,>=1.0+x" false ∧
+    ¬ NoLocalBound "!=1.0+x,!=1.0" false ∧ ¬ NoLocalBound "<=1.0+x,>=1.0 || ==1.0+y.*" true := by decide
+
+example : (parseConstraint ">=1.0+x || 1.0" >>= VC.toStr) = .ok ">=1.0+x" ∧
+    (parseConstraint "1.0,>=1.0+x" >>= VC.toStr) = .ok ">=1.0+x,<1.0.1" ∧
+    (parseConstraint "!=1.0+x,!=1.0" >>= VC.toStr) = .ok "!=1.0+x" ∧
+    (parseMarkerVersionConstraint "<=1.0+x,>=1.0 || ==1.0+y.*" >>= VC.toStr) =
+      .ok ">=1.0,<=1.0+x || >=1.0+y,<1.1+y" := by decide
+
+/-! ## B. what the parser returns prints — every string -/
+
+/-- **`a.difference(b)` for two members is total whenever all bounds are well-formed versions**: no `min < max`,
+no regularity, local labels allowed (`VersionUnion.of(before, after)` does not recurse; a union result has a
+first and a last member). -/
+theorem vc_member_difference_total (a b : RC) (ha : a.wfB) (hb : b.wfB) :
+    ∃ d, RC.difference a b = .ok d ∧ BW d.flatten ∧ ∀ ds, d = .union ds → ds ≠ [] :=
+  difference_total_bw a b ha hb
+
+/-- **`VersionUnion._inverted` (`VersionRange().difference(self)`) always returns** when all bounds are
+well-formed versions — the hypothesis `hinv` of Part II.B, for every union -/
+theorem vc_inverted_total (rs : List RC) (h : BW rs) : ∃ res, VC.inverted rs = .ok res :=
+  inverted_total_bw rs h
+
+/-- **every constraint whose bounds are well-formed versions prints** (all such constraints, not only parsed
+ones) -/
+theorem vc_printable_total (c : VC) (h : BW c.flatten) : ∃ t, c.toStr = .ok t :=
+  toStr_total_bw c h
+
+/-- **the full statement of Part II.B** (`vc_parsed_printable_full_statement`): whatever
+`parse_constraint` / `parse_marker_version_constraint` return can be printed. -/
+theorem vc_parsed_printable : vc_parsed_printable_full_statement := by
+  intro s m c h
+  rcases parseConstraintAux_total s m with ⟨c', hc', hg⟩ | hv
+  · rw [hc'] at h; cases h; exact toStr_total_bw c hg.bw
+  · rw [hv] at h; cases h
+
+/-- not covered by `RegularBounds` of Part IV (`1.0`, `1.0.post1`, `1.0+x` are of one release) -/
+example : regularBoundsB ">1.0 || <1.0.post1 || !=1.0+x,!=1.0.post1" false = false ∧
+    (parseConstraint "<1.0 || >1.0.post1,!=1.0.post2+x || 1.0+x" >>= VC.toStr) =
+      .ok "<1.0 || 1.0+x || >1.0.post1,<1.0.post2+x || >1.0.post2+x" := by decide
+
+end Poetry.C19
+
+/-! # Part VII — the marker simplifier: error classification of the whole mutual block -/
+/-!
+C19, Part VII — the marker simplifier: which errors `union(*markers)` / `intersection(*markers)` / `cnf` /
+`dnf` / `MultiMarker.of` / `MarkerUnion.of` / `_merge_single_markers` can return, and with it `parse_marker`
+and `Requirement(text)` modulo the version-constraint algebra only.
+Property theorems only (helper lemmas: Proofs/ParserTotalSimp.lean).  Fragment to be appended to
+Props/C19.lean (the `import` of Props/C19 below only serves the stand-alone build).
+
+Error values.  `.fuel`: the MODEL's recursion budget ran out (no counterpart in the code; the driver reports it
+as its own outcome).  `.recursion`: the `RecursionError` raised on purpose by `detect_recursion` when
+`intersection`/`union` is re-entered with an argument tuple already on its stack; `intersection` catches the
+one coming out of its `cnf(...)` call, `union` the one coming out of its `dnf(...)` call (they fall back to the
+less normalised candidates) — every other one propagates to the caller.  In the real `parse_marker` (since
+9ad3a46) a `RecursionError` escaping `_compact_markers` — this one, or a genuine interpreter stack overflow —
+is converted to `InvalidMarkerError` (a `ValueError`), and `Requirement.__init__` does the same; the model's
+`parseMarker` / `compactTop` return `.recursion` unconverted (model ≠ code there: see the report).
+`.syntax`: the merge of python_version / python_full_version markers re-parses a marker text it has just
+printed (`parse_marker(...)` on one item); that this text is always accepted by the grammar is not proved
+here, so lark's error stays in the list.  `.value` / `.unmodelled`: leaf construction, as in Part I.
+-/
+set_option linter.unusedSimpArgs false
+set_option linter.unusedVariables false
+
+namespace Poetry.C19
+open Poetry Marker ParserTotal
+
+/-! # Part VII — the marker simplifier -/
+
+/-! ## S0 — the string-constraint algebra never crashes -/
+
+/-- **`intersect` of string constraints raises `ValueError` at most — for EVERY pair of constraint objects**
+(not only well-formed ones): the trailing `assert` of `UnionConstraint.intersect` is dead, no
+`NotImplementedError`/`KeyError`. -/
+theorem generic_intersect_err_documented (a b : Generic.GC) (e : PyErr) (h : a.intersect b = .error e) :
+    e = .value := gc_intersect_err a b e h
+
+/-- **`union` of string constraints raises `ValueError` at most — for EVERY pair of constraint objects.** -/
+theorem generic_union_err_documented (a b : Generic.GC) (e : PyErr) (h : a.unionWith b = .error e) :
+    e = .value := gc_unionWith_err a b e h
+
+/-- the `ValueError` occurs (what `MultiConstraint.__init__` rejects): `ExtraConstraint("a", "in")` cannot be
+built by the parser, but as objects: -/
+example : Generic.GC.intersect (.atom ⟨"a", .in_, true⟩) (.atom ⟨"b", .eq, true⟩) = .error .value := rfl
+
+/-! ## S1 — the mutual block -/
+
+/-- the residue: an error of the VERSION-constraint algebra or printer on some operands
+(`VersionConstraint.intersect`, `.union`, `is_simple()`, `str()`), or the `assert isinstance(m, SingleMarker)`
+of the python_version / python_full_version merge hit by an atomic multi/union marker of that name. -/
+def simplifier_residue (e : PyErr) : Prop :=
+  ((∃ a b : VC, a.intersect b = .error e) ∨ (∃ a b : VC, a.unionWith b = .error e) ∨
+   (∃ c : VC, c.isSimple = .error e) ∨ (∃ c : VC, c.toStr = .error e)) ∨
+  (e = .assertion ∧ ∃ l1 l2 : Leaf,
+    ((l1.name == "python_version" && l2.name == "python_full_version") ||
+     (l1.name == "python_full_version" && l2.name == "python_version")) = true ∧
+    ∀ s1 s2, l1 = .single s1 → l2 = .single s2 → False)
+
+example (e : PyErr) : simplifier_residue e ↔ AlgErr e := Iff.rfl
+
+/-- the full statement for the simplifier: no residue.  NOT proved; `simplifier_err_classified` is the
+statement with the residue. -/
+def simplifier_err_classified_full_statement : Prop :=
+  ∀ fuel stk ms e, unionF fuel stk ms = .error e →
+    e = .fuel ∨ e = .recursion ∨ e = .syntax ∨ e = .value ∨ e = .unmodelled
+
+/-- **S1 (the block itself), no hypothesis on the leaves.** For every fuel, recursion stack and argument, an
+error of any of the sixteen functions of the simplifier is fuel exhaustion, the `RecursionError` of
+`detect_recursion`, or an error of `_merge_single_markers` on two single-marker-likes.  The `RuntimeError`
+after `min(…, key=complexity)` is dead code; the block raises no `AssertionError`, `IndexError`, `KeyError`,
+`AttributeError`, `TypeError`, `NotImplementedError` of its own. -/
+theorem simplifier_block_err_classified (E : PyErr → Prop)
+    (hM : ∀ l1 l2 b e, mergeLeaves l1 l2 b = .error e → E e) (n : Nat) : ErrAt E n := errAt hM n
+
+/-- **S1 (the leaf merge)** under `VCErrDocumented`: `_merge_single_markers` fails with fuel (model), lark's
+error or `ValueError`/`.unmodelled` from re-building a leaf, or the residue.  No `AttributeError` from mixing a
+version constraint with a string constraint (the kinds are tested first); the string-constraint algebra
+contributes `ValueError` only (S0). -/
+theorem merge_err_classified (hvc : VCErrDocumented) (l1 l2 : Leaf) (isMulti : Bool) (e : PyErr)
+    (h : mergeLeaves l1 l2 isMulti = .error e) :
+    e = .fuel ∨ e = .syntax ∨ e = .value ∨ e = .unmodelled ∨ simplifier_residue e := by
+  rcases mergeLeaves_merr hvc l1 l2 isMulti e h with h | h | h | h | h | h
+  · exact .inl h
+  · exact .inr (.inl h)
+  · exact .inr (.inr (.inl h))
+  · exact .inr (.inr (.inr (.inl h)))
+  · exact .inr (.inr (.inr (.inr (.inl h))))
+  · exact .inr (.inr (.inr (.inr (.inr h))))
+
+/-- **S1 (result).** `union(*markers)` — every fuel, stack, argument list (no shape assumption). -/
+theorem simplifier_err_classified (hvc : VCErrDocumented) (fuel : Nat) (stk : Stack) (ms : List M)
+    (e : PyErr) (h : unionF fuel stk ms = .error e) :
+    e = .fuel ∨ e = .recursion ∨ e = .syntax ∨ e = .value ∨ e = .unmodelled ∨ simplifier_residue e :=
+  SimplifierErr.ofBlock ((simplifier_errAt hvc fuel).uniF stk ms e h)
+
+/-- the same for `intersection(*markers)`, `a.intersect(b)`, `a.union(b)`, `cnf`, `dnf` -/
+theorem simplifier_err_classified_all (hvc : VCErrDocumented) (fuel : Nat) (stk : Stack) (e : PyErr) :
+    (∀ ms, intersectionF fuel stk ms = .error e → SimplifierErr e) ∧
+    (∀ a b, mIntersect fuel stk a b = .error e → SimplifierErr e) ∧
+    (∀ a b, mUnion fuel stk a b = .error e → SimplifierErr e) ∧
+    (∀ m, cnf fuel stk m = .error e → SimplifierErr e) ∧
+    (∀ m, dnf fuel stk m = .error e → SimplifierErr e) ∧
+    (∀ ms, multiOf fuel stk ms = .error e → SimplifierErr e) ∧
+    (∀ ms, unionOf fuel stk ms = .error e → SimplifierErr e) :=
+  have A := simplifier_errAt hvc fuel
+  ⟨fun ms h => .ofBlock (A.interF stk ms e h), fun a b h => .ofBlock (A.inter stk a b e h),
+   fun a b h => .ofBlock (A.uni stk a b e h), fun m h => .ofBlock (A.cnf stk m e h),
+   fun m h => .ofBlock (A.dnf stk m e h), fun ms h => .ofBlock (A.mOf stk ms e h),
+   fun ms h => .ofBlock (A.uOf stk ms e h)⟩
+
+/-- fuel exhaustion is an outcome of the model: -/
+example : unionF 0 [] [] = .error .fuel := by rw [unionF.eq_def]
+/-- … and `detect_recursion` fires when the argument tuple is already on the stack: -/
+example : unionF 1 [(true, [M.any])] [M.any] = .error .recursion := by
+  rw [unionF.eq_def]; simp [Stack.has, M.beqList, M.beq]
+
+/-! ## S2 — `parse_marker` -/
+
+/-- **`parse_marker`, classified** (under `VCErrDocumented`): lark's error, `ValueError`, `.unmodelled`
+(`platform_release`), the model's fuel, the `RecursionError` of `detect_recursion` (which the real
+`parse_marker` turns into `InvalidMarkerError`, a `ValueError`), or the residue.  This instantiates the
+hypothesis `hsimp` of `parse_marker_err_documented_partial` (Part I). -/
+theorem parse_marker_err_classified (hvc : VCErrDocumented) (s : String) (e : PyErr)
+    (h : parseMarker s = .error e) :
+    e = .syntax ∨ e = .value ∨ e = .unmodelled ∨ e = .fuel ∨ e = .recursion ∨ simplifier_residue e := by
+  rcases parse_marker_err_documented_partial hvc SimplifierErr
+      (fun subs e' _ hu => .ofBlock ((simplifier_errAt hvc _).uniF _ _ _ hu)) s e h with
+    h | (h | h) | h
+  · exact .inl h
+  · exact .inr (.inl h)
+  · exact .inr (.inr (.inl h))
+  · rcases h with h | h | h | h | h | h
+    · exact .inr (.inr (.inr (.inl h)))
+    · exact .inr (.inr (.inr (.inr (.inl h))))
+    · exact .inl h
+    · exact .inr (.inl h)
+    · exact .inr (.inr (.inl h))
+    · exact .inr (.inr (.inr (.inr (.inr h))))
+
+/-- … and from the version-constraint full statement of Part II alone -/
+theorem parse_marker_err_classified_of_vc (hV : vc_parse_err_documented_full_statement) (s : String)
+    (e : PyErr) (h : parseMarker s = .error e) :
+    e = .syntax ∨ e = .value ∨ e = .unmodelled ∨ e = .fuel ∨ e = .recursion ∨ simplifier_residue e :=
+  parse_marker_err_classified (fun t e' ht => hV t true e' ht) s e h
+
+example : parseMarker "os_name ==" = .error .syntax :=
+  parseMarker_of_syntax_err _ _ (by decide) (by decide) (by decide) (by decide +kernel)
+
+/-! ## S3 — `Requirement(text)` -/
+
+/-- the marker part of `Requirement.__init__` (`_compact_markers` + `union`) -/
+theorem req_compact_top_err_classified (hvc : VCErrDocumented) (syn : Syn) (e : PyErr)
+    (h : Req.compactTop syn = .error e) :
+    e = .fuel ∨ e = .recursion ∨ e = .syntax ∨ e = .value ∨ e = .unmodelled ∨ simplifier_residue e :=
+  compactTop_simplifierErr hvc syn e h
+
+/-- **`Requirement(text)`, classified**: hypothesis `hV` (Part II full statement: the version-constraint
+parser raises `ValueError` only; proved outside the local-label case in Part IV); Part V's `hsimp` is
+discharged.  `.syntax` here can only come from the re-parse inside the python-version merge (the requirement
+grammar's own errors are `.value`). -/
+theorem req_parse_err_classified (hV : vc_parse_err_documented_full_statement) (s : String) (e : PyErr)
+    (h : Req.parse s = .error e) :
+    e = .value ∨ e = .unmodelled ∨ e = .fuel ∨ e = .recursion ∨ e = .syntax ∨ simplifier_residue e := by
+  have hvc : VCErrDocumented := fun t e' ht => hV t true e' ht
+  rcases req_parse_err_documented_partial hV SimplifierErr
+      (fun subs e' _ hu => .ofBlock ((simplifier_errAt hvc _).uniF _ _ _ hu)) s e h with h | h | h
+  · exact .inl h
+  · exact .inr (.inl h)
+  · rcases h with h | h | h | h | h | h
+    · exact .inr (.inr (.inl h))
+    · exact .inr (.inr (.inr (.inl h)))
+    · exact .inr (.inr (.inr (.inr (.inl h))))
+    · exact .inl h
+    · exact .inr (.inl h)
+    · exact .inr (.inr (.inr (.inr (.inr h))))
+
+end Poetry.C19
+
+/-! # Part VIII — the statements with every discharged hypothesis removed -/
+
+namespace Poetry.C19
+open Poetry Version VParser Marker Dep ParserTotal
+
+/-- **marker leaves (`SingleMarker.__init__`), unconditional**: `InvalidMarkerError` only (`unmodelled`: the model
+does not cover `platform_release` literals outside PEP 440) -/
+theorem marker_leaf_err_classified (name cstr : String) (swapped : Bool) (e : PyErr)
+    (h : mkSingle name cstr swapped = .error e) : e = .value ∨ (e = .unmodelled ∧ name = "platform_release") :=
+  mkSingle_err_classified vc_err_documented name cstr swapped e h
+
+/-- **the raw marker tree (`_compact_markers` without simplification), unconditional** -/
+theorem compactRaw_err_classified (s : String) (syn : Syn) (e : PyErr)
+    (hs : parseText s = .ok syn) (h : compactRaw syn = .error e) : e = .value ∨ e = .unmodelled :=
+  compactRaw_err_classified_partial vc_err_documented s syn e hs h
+
+/-- **`parse_marker`, for every string**: the grammar's error, `InvalidMarkerError`, the model's own `unmodelled` /
+`fuel`, the `RecursionError` of `detect_recursion` that escapes the simplifier (converted into `InvalidMarkerError` by
+`parse_marker` since repo commit 9ad3a46), or the named residue (`simplifier_residue`: an error of the version-constraint
+algebra on simplifier-built operands, or the `assert isinstance(…, SingleMarker)` of the python_version pair merge). -/
+theorem parse_marker_err_classified_unconditional (s : String) (e : PyErr) (h : parseMarker s = .error e) :
+    e = .syntax ∨ e = .value ∨ e = .unmodelled ∨ e = .fuel ∨ e = .recursion ∨ simplifier_residue e :=
+  parse_marker_err_classified vc_err_documented s e h
+
+/-- **`Requirement(text)`, for every string** -/
+theorem req_parse_err_classified_unconditional (s : String) (e : PyErr) (h : Req.parse s = .error e) :
+    e = .value ∨ e = .unmodelled ∨ e = .fuel ∨ e = .recursion ∨ e = .syntax ∨ simplifier_residue e :=
+  req_parse_err_classified vc_parse_err_documented s e h
+
+/-- **`Dependency.create_from_pep_508(text)`, for every string**: `ValueError`, `unmodelled`, or an error of the marker
+simplifier / of `convert_markers` (the version-constraint parser and printer contribute nothing else: Part VI). -/
+theorem dep_parse_err_classified_unconditional (s : String) (e : PyErr) (h : createFromPep508 s = .error e) :
+    e = .value ∨ e = .unmodelled ∨
+    (∃ subs, (∀ m ∈ subs, RawM m = true) ∧ unionF defaultFuel [] subs = .error e) ∨
+    (∃ key m, convertMarkersFor key m = .error e) := by
+  rcases dep_parse_err_decomposed vc_err_documented s e h with h | h | ⟨t, h⟩ | h | ⟨t, c, hc, h⟩ | h
+  · exact .inl h
+  · exact .inr (.inl h)
+  · exact .inl (vc_parse_err_documented t false e h)
+  · exact .inr (.inr (.inl h))
+  · obtain ⟨txt, ht⟩ := vc_parsed_printable t false c hc
+    rw [ht] at h; cases h
+  · exact .inr (.inr (.inr h))
+
+/-- … with the simplifier disjunct classified by Part VII: what remains is `convert_markers` (`Dependency.marker` setter) -/
+theorem dep_parse_err_classified_simplifier (s : String) (e : PyErr) (h : createFromPep508 s = .error e) :
+    e = .value ∨ e = .unmodelled ∨ e = .fuel ∨ e = .recursion ∨ e = .syntax ∨ simplifier_residue e ∨
+    (∃ key m, convertMarkersFor key m = .error e) := by
+  rcases dep_parse_err_classified_unconditional s e h with h | h | ⟨subs, _, h⟩ | h
+  · exact .inl h
+  · exact .inr (.inl h)
+  · rcases simplifier_err_classified vc_err_documented _ _ _ e h with h | h | h | h | h | h
+    · exact .inr (.inr (.inl h))
+    · exact .inr (.inr (.inr (.inl h)))
+    · exact .inr (.inr (.inr (.inr (.inl h))))
+    · exact .inl h
+    · exact .inr (.inl h)
+    · exact .inr (.inr (.inr (.inr (.inr (.inl h)))))
+  · exact .inr (.inr (.inr (.inr (.inr (.inr h)))))
 
 end Poetry.C19
